@@ -252,6 +252,20 @@ Definition start_decision (a : str) (key : str) : start_res :=
   | r => StartBadAddress r
   end.
 
+(* ---------- startHttpServer as a whole: from FZF_API_KEY to the answers of the listener ---------- *)
+(* apiKey := os.Getenv("FZF_API_KEY"); the guard looks at apiKey; server := httpServer{apiKey: []byte(apiKey), ...}:
+   the key the listener holds is the value of the variable, byte for byte. *)
+Definition stored_key (envkey : str) : str := envkey.
+
+(* one connection to the listener that `--listen a` starts with FZF_API_KEY = envkey
+   (None: no listener - refused, or the address is unusable) *)
+Definition serve (a envkey state : str) (parse : str -> verdict) (ready : bool) (chunks : list str)
+  : res (option outcome) :=
+  match start_decision a envkey with
+  | StartListen _ _ => do o <- handle (stored_key envkey) state parse ready chunks; Ok (Some o)
+  | _ => Ok None
+  end.
+
 (* ---------- Terminal.dumpStatus (src/terminal.go): the two copy loops ---------- *)
 (* selected := make([]StatusItem, util.Max(0, util.Min(params.limit, len(selectedItems)-params.offset)))
    for i := range selected { selected[i] = t.dumpItem(selectedItems[i+params.offset].item) }
